@@ -49,7 +49,12 @@ pub fn params(list: &[(&str, String)]) -> Parameters {
 impl<'a> SyncWorld<'a> {
     /// a fresh room where the first `n` identities have every right on every entity
     pub async fn new(u: &'a Universe, n: usize) -> Result<SyncWorld<'a>, String> {
-        let users: Vec<usize> = (1..n).collect();
+        Self::new_with_members(u, n, n).await
+    }
+
+    /// `n` devices take part, the first `members` identities are users of the room from the start
+    pub async fn new_with_members(u: &'a Universe, n: usize, members: usize) -> Result<SyncWorld<'a>, String> {
+        let users: Vec<usize> = (1..members).collect();
         let room = u
             .create_room(0, tick(0), &[(vec![("*", true, true)], users, vec![])])
             .await?;
